@@ -35,7 +35,7 @@ def main():
         "hooks": {
             "guard": "POMEROL_VERIF",
             "enable": "engine/build.sh compiles every library source of /repo's working tree with -DPOMEROL_VERIF (no cmake); plain flavours -O2 -DNDEBUG, sanitizer flavours with asserts + ASan/UBSan",
-            "baseline_off_cmd": "cmake --build /repo/_build && ctest --test-dir /repo/_build -j8 --timeout 900",
+            "baseline_off_cmd": "cmake --build /repo/_build && OMPI_ALLOW_RUN_AS_ROOT=1 OMPI_ALLOW_RUN_AS_ROOT_CONFIRM=1 ctest --test-dir /repo/_build -j8 --timeout 900",
             "source_commits": json.load(open(os.path.join(VERIF, "tools", "hook_commits.json"))) if os.path.exists(os.path.join(VERIF, "tools", "hook_commits.json")) else [],
             "add_only": True,
         },
